@@ -136,6 +136,81 @@ class Result(object):
     pass
 
 
+# --------------------------------------------------------------------------- history against the reference semantics
+
+def state_events(history):
+    """the state events of an execution history as the reference semantics logs them:
+    ["in", name, raw input] for `…StateEntered`, ["out", name, output] for `…StateExited` (Cause texts masked)"""
+    out = []
+    for h in history or []:
+        t = h.get("type", "")
+        if t.endswith("StateEntered"):
+            d = h.get("stateEnteredEventDetails") or {}
+            out.append(["in", d.get("name"), mask_cause(json.loads(d.get("input", "null")))])
+        elif t.endswith("StateExited"):
+            d = h.get("stateExitedEventDetails") or {}
+            out.append(["out", d.get("name"), mask_cause(json.loads(d.get("output", "null")))])
+    return out
+
+
+def fanout_names(machine):
+    names = set()
+
+    def walk(states):
+        for k, st in (states or {}).items():
+            if not isinstance(st, dict):
+                continue
+            if st.get("Type") in ("Parallel", "Map"):
+                names.add(k)
+            for b in st.get("Branches", []) or []:
+                walk(b.get("States"))
+            for x in ("Iterator", "ItemProcessor"):
+                if isinstance(st.get(x), dict):
+                    walk(st[x].get("States"))
+    walk(machine.get("States"))
+    return names
+
+
+def compare_history(machine, m, history, n_requests):
+    """The engine's history against the log of `Asl.run` (`m`: the model's outcome).  Returns (mode, problems):
+      sequence  no Parallel / Map state was entered: the sequences of (in/out, name, data) are equal;
+      multiset  fan-outs, none of which failed: the multisets are equal (the interleaving of branches is the schedule's);
+      fanfail   some fan-out attempt failed (which siblings got how far is the schedule's): every `out` event of the
+                engine is one of the model's (the model runs every branch to its end); `in` events and the request
+                count are not compared;
+      skipped   the model ran out of fuel / does not support the machine / several branches of a fan-out failed.
+    In the first two modes the number of task requests the workers saw equals the model's `requests`."""
+    import collections
+    from common import cj
+    if m.get("status") not in ("SUCCEEDED", "FAILED") or m.get("multiFail"):
+        return "skipped", []
+    mine = [[k, n, mask_cause(d)] for k, n, d in m.get("log", [])]
+    theirs = state_events(history)
+    fans = fanout_names(machine)
+    probs = []
+    if m.get("fanFail"):
+        have = collections.Counter(cj(e) for e in mine if e[0] == "out")
+        extra = collections.Counter(cj(e) for e in theirs if e[0] == "out") - have
+        if extra:
+            probs.append({"what": "StateExited events the reference semantics does not have", "events": sorted(extra.elements())[:4]})
+        return "fanfail", probs
+    if any(e[0] == "in" and e[1] in fans for e in mine + theirs):
+        mode = "multiset"
+        a, b = collections.Counter(cj(e) for e in theirs), collections.Counter(cj(e) for e in mine)
+        if a != b:
+            probs.append({"what": "state events differ as multisets", "engine_only": sorted((a - b).elements())[:4],
+                          "model_only": sorted((b - a).elements())[:4]})
+    else:
+        mode = "sequence"
+        if cj(theirs) != cj(mine):
+            i = next((i for i, (x, y) in enumerate(zip(theirs, mine)) if cj(x) != cj(y)), min(len(theirs), len(mine)))
+            probs.append({"what": "state events differ as sequences", "at": i, "engine": theirs[i:i + 2], "model": mine[i:i + 2],
+                          "lengths": [len(theirs), len(mine)]})
+    if n_requests != m.get("requests"):
+        probs.append({"what": "number of task requests", "engine": n_requests, "model": m.get("requests")})
+    return mode, probs
+
+
 def run_case(machine, data, plans, policy="canonical", rng=None, sm_type="STANDARD", max_steps=4000,
              instances=1, name="e1", sim=None, monitor=None, logging_cfg=None, max_data=None):
     """`max_data`: run the engine with that size limit (small-limit mode, see `data_limit`); the
